@@ -203,6 +203,8 @@ class BLOB(Element):
         )
 
     def set_value_from_message(self, msg):
-        blob_value = values.BLOB.from_base64(msg.value, msg.format)
-        assert msg.size == blob_value.size
+        # an empty payload arrives as an element without text and, when the
+        # message was parsed from the wire, the size is a string
+        blob_value = values.BLOB.from_base64(msg.value or "", msg.format)
+        assert int(msg.size) == blob_value.size
         self.set_value(blob_value)
